@@ -208,7 +208,8 @@ func runC16(c *core.Ctx) {
 			k1 := fillKey(b, kl, 'A')
 			k2 := fillKey(b, kl, 'B')
 			if kl == 0 {
-				k2 = []byte("z") // only one empty key exists
+				k1 = []byte("y") // the empty key is written by every combination anyway
+				k2 = []byte("z")
 			}
 			v1 := core.MakeVal(combo*3+1, vl)
 			v2 := core.MakeVal(combo*3+2, vl)
@@ -222,12 +223,17 @@ func runC16(c *core.Ctx) {
 				want[string(k)] = v
 				return true
 			}
+			// an empty key with an empty value first (its record header is six zero bytes), then the records under test
+			if !put([]byte{}, []byte{}) {
+				return
+			}
+			c.Stat("empty_key_empty_value", 1)
 			if !put(k1, v1) || !put(k2, v2) || !put([]byte("small"), []byte{}) || !put(k1, v3) {
 				return
 			}
 			c.Stat("empty_values", 1)
 			absent := [][]byte{[]byte("absent"), fillKey(b, kl+1, 'A')}
-			if kl > 0 {
+			if kl > 1 {
 				absent = append(absent, k1[:kl-1])
 			}
 			if d := verifyExact(db, want, absent); d != "" {
